@@ -168,6 +168,8 @@ def r3_writers(ctx, chk, rule="C01.3"):
             continue
         if f.qual in allowed:
             chk.ok(rule, f.where(n), "writer of reach_probability: `%s`" % norm_stmt(n))
+        elif f in shared.restorers(ctx) or any(g_.qual == f.qual for g_ in shared.restorers(ctx)):
+            chk.ok(rule, f.where(n), "`%s` in %s only puts the field back to what the constructor sets it to" % (norm_stmt(n), f.short))
         else:
             chk.violation(rule, f.where(n), "`%s` writes reach_probability outside the constructor and the reachability sweep: "
                           "reported probabilities are no longer the sweep's fixed point" % norm_stmt(n),
@@ -279,6 +281,9 @@ def sweep_nf(ctx, chk, rule, qual, fields, kernel_meth, domain_is_param):
     from ..symx import subst, deep_simp
     consts = {("attr", ("v", "self"), k_): C(v_) for k_, v_ in shared.solver_field_consts(ctx).items() if k_ != "threshold"}
     c = deep_simp(subst(W.cond, lambda x: consts.get(x))) if consts else W.cond
+    # an unlimited budget (`max_iterations=math.inf`): `i < inf` holds for every count
+    _inf = float("inf")
+    c = deep_simp(subst(c, lambda x: TRUE if (x[0] == "cmp" and x[1] in ("<", "<=") and is_const(x[3]) and x[3][1] == _inf and not is_const(x[2])) else None))
     dvar = None
     anyform = _any_moved_form(sx, W, c, thr)
     if anyform is not None:
@@ -428,6 +433,27 @@ def _any_moved_form(sx, W, c, thr):
     F.init = dict(F.init)
     F.init[mv] = C(0)
     return dict(var=var, change=u[1][3], init_const=k0)
+
+
+def _early_no_solution(ctx, f, test):
+    """`prune and 0 not in <backward search result> and self.state_list[0].reach_probability == 0 [and ...]` in solve_reachability."""
+    if not (isinstance(test, ast.BoolOp) and isinstance(test.op, ast.And)):
+        return False
+    cfg = ctx.cfg(f)
+    has_out = has_zero = False
+    for v in test.values:
+        if isinstance(v, ast.Compare) and len(v.ops) == 1 and isinstance(v.ops[0], ast.NotIn) and isinstance(v.left, ast.Constant) and v.left.value == 0 \
+                and isinstance(v.comparators[0], ast.Name):
+            stmt = test
+            while not isinstance(stmt, ast.stmt):
+                stmt = stmt.parent
+            defs = cfg.defs_reaching(stmt, v.comparators[0].id)
+            if defs and all(isinstance(d, ast.Assign) and isinstance(d.value, ast.Call) and call_name(d.value) == "reverse_dfs" for d in defs):
+                has_out = True
+        if isinstance(v, ast.Compare) and len(v.ops) == 1 and isinstance(v.ops[0], ast.Eq) and src(v).replace(" ", "") in (
+                "self.state_list[0].reach_probability==0", "0==self.state_list[0].reach_probability"):
+            has_zero = True
+    return has_out and has_zero
 
 
 def _sticky_watch_list(wnode):
@@ -580,6 +606,9 @@ def r5_flag(ctx, chk, rule="C01.5"):
                         and any(isinstance(b, ast.Raise) for b in st.body) and not st.orelse:
                     if q == SOLVER_VIR:
                         chk.ok(rule, f.where(n), "flag `%s` guards only the no-solution raise (`if %s`; its exact condition is judged by C06.2)" % (flag, src(st.test)))
+                    elif _early_no_solution(ctx, f, st.test):
+                        chk.ok(rule, f.where(n), "flag `%s` guards an early no-solution raise: state 0 outside the backward search's result with (initial) value 0 is never swept, "
+                               "so the documented test after the sweep gives the same verdict" % flag)
                     else:
                         chk.violation(rule, f.where(n), "`if %s: raise` in %s: with pruning requested the solver fails where without pruning it reports probabilities - "
                                       "the outcome of the reachability phase depends on the flag beyond the documented no-solution test" % (src(st.test), f.short),
@@ -660,8 +689,37 @@ def _in(n, tree):
     return any(x is n for x in ast.walk(tree))
 
 
+_PURE_CALLS = {"max", "min", "round", "len", "sorted", "sum", "abs", "str", "int", "float", "list", "tuple", "set", "repr", "format", "enumerate", "zip", "range",
+               "ValueError", "any", "all", "isinstance", "bool"}
+
+
 def _is_log(st):
-    return isinstance(st, ast.Expr) and isinstance(st.value, ast.Call) and call_name(st.value).startswith("logging.")
+    """a statement of a raise-only block that cannot influence anything but the error that is raised: a log call, or the preparation
+    of the error's diagnostics in locals (pure builtins only; attributes set on the freshly built exception object)"""
+    if isinstance(st, ast.Expr) and isinstance(st.value, ast.Call) and call_name(st.value).startswith("logging."):
+        return True
+
+    def pure(e):
+        for x in ast.walk(e):
+            if isinstance(x, ast.Call) and not (call_name(x) in _PURE_CALLS or call_name(x).startswith("logging.")):
+                return False
+            if isinstance(x, (ast.Yield, ast.YieldFrom, ast.Await, ast.NamedExpr)):
+                return False
+        return True
+    if isinstance(st, ast.Assign) and pure(st.value) and all(
+            isinstance(t, ast.Name) or (isinstance(t, ast.Attribute) and isinstance(t.value, ast.Name) and t.value.id not in ("self", "state", "cls")) for t in st.targets):
+        # attribute targets: only on a local that this block itself bound to a new exception object
+        for t in st.targets:
+            if isinstance(t, ast.Attribute):
+                blk = getattr(st, "parent", None)
+                made = [a for a in ast.walk(blk) if isinstance(a, ast.Assign) and any(isinstance(y, ast.Name) and y.id == t.value.id for y in a.targets)
+                        and isinstance(a.value, ast.Call) and call_name(a.value) in ("ValueError",)] if blk is not None else []
+                if not made:
+                    return False
+        return True
+    if isinstance(st, ast.If) and pure(st.test) and all(_is_log(b) for b in st.body + st.orelse):
+        return True
+    return False
 
 
 def run(ctx, chk):
